@@ -55,7 +55,7 @@ func (p *resultsPrinter) PrintedAnything() bool {
 
 func (p *resultsPrinter) printNode(node *CandidateNode, writer io.Writer) error {
 	p.printedMatches = p.printedMatches || (node.Tag != "!!null" &&
-		(node.Tag != "!!bool" || node.Value != "false"))
+		(node.Tag != "!!bool" || isTruthyNode(node)))
 	return p.encoder.Encode(writer, node)
 }
 
